@@ -36,4 +36,10 @@ theorem failAt_agree (k j : Nat) (pt : List Rat) (h : j ≠ k) : failAt k j pt =
 /-- no refinement -/
 def noRefine : PState Rat → Option (LocalResult Rat) := fun _ => none
 
+/-- from a Boolean check to the existence of the successful result -/
+theorem ok_of_isOk {ε β : Type} {r : Except ε β} (h : r.isOk = true) : ∃ x, r = .ok x := by
+  cases r with
+  | ok x => exact ⟨x, rfl⟩
+  | error e => cases h
+
 end ProcToy
